@@ -303,6 +303,14 @@ pub fn conform(index: u64, d: &Dims, st: &mut Stats) {
     }
 }
 
+pub fn dims_space_pub(thorough: bool, query_carrier: bool) -> Vec<Vec<u8>> {
+    dims_space(thorough, query_carrier)
+}
+
+pub fn dims_at_pub(space: &[Vec<u8>], query_carrier: bool, i: u64) -> Dims {
+    dims_at(space, query_carrier, i)
+}
+
 fn dims_space(thorough: bool, query_carrier: bool) -> Vec<Vec<u8>> {
     // value lists per dimension, in Dims field order after query_carrier
     let full = |n: u8| (0..n).collect::<Vec<u8>>();
